@@ -50,6 +50,8 @@ func setup(g *gen.Gen, learnt *spb.Uint128, nOps int) (*server.Server, *mon.RIBM
 		if _, err := s.Elect(learnt); err != nil {
 			return nil, nil, nil, fmt.Errorf("elect: %v", err)
 		}
+		// a new primary: operations held so far (programmed through the RIB API above) are dropped
+		x.M.DropHeld()
 		if g.R.Intn(2) == 0 {
 			s.CloseSend()
 			st.WaitEnd()
